@@ -397,6 +397,7 @@ func (g *gen) systematic() []*Def {
 			}
 		}
 	}
+	defs = append(defs, g.gapAliasDefs()...)
 	// two types sharing one const block with a running iota (the repository's own test shape)
 	{
 		n := g.nextSerial()
@@ -448,7 +449,7 @@ func (g *gen) valueList(kind string, consts []Item) string {
 	seen := map[string]bool{}
 	var vs []*big.Int
 	add := func(v *big.Int) {
-		if v.Cmp(lo) < 0 || v.Cmp(hi) > 0 || seen[v.String()] || len(vs) >= 160 {
+		if v.Cmp(lo) < 0 || v.Cmp(hi) > 0 || seen[v.String()] || len(vs) >= 220 {
 			return
 		}
 		seen[v.String()] = true
@@ -461,6 +462,23 @@ func (g *gen) valueList(kind string, consts []Item) string {
 		add(it.Val)
 		add(new(big.Int).Add(it.Val, bi(1)))
 		add(new(big.Int).Sub(it.Val, bi(1)))
+	}
+	// every value inside the range of the constants (the gaps) when that range is small
+	if len(consts) > 0 {
+		mn, mx := consts[0].Val, consts[0].Val
+		for _, it := range consts {
+			if it.Val.Cmp(mn) < 0 {
+				mn = it.Val
+			}
+			if it.Val.Cmp(mx) > 0 {
+				mx = it.Val
+			}
+		}
+		if span := new(big.Int).Sub(mx, mn); span.IsInt64() && span.Int64() <= 80 {
+			for v := new(big.Int).Set(mn); v.Cmp(mx) <= 0; v = new(big.Int).Add(v, bi(1)) {
+				add(v)
+			}
+		}
 	}
 	for i := 0; i < 10; i++ {
 		add(randInRange(g.rng, lo, hi))
@@ -596,6 +614,23 @@ func (g *gen) emit(defs []*Def, domain bool) {
 				lines = append(lines, "gn parse "+td.Name+" "+hexOf(s))
 				g.nParse++
 			}
+			// the slices returned above were mutated in place by the probe (caller-owned): ask again
+			lines = append(lines, "gn values "+td.Name, "gn strvals "+td.Name)
+			if bits == 8 {
+				lines = append(lines, "gn valid "+td.Name+" all", "gn str "+td.Name+" all")
+			} else {
+				vl := g.valueList(td.Kind, consts)
+				lines = append(lines, "gn valid "+td.Name+" "+vl, "gn str "+td.Name+" "+vl)
+			}
+			lines = append(lines, "gn values "+td.Name, "gn strvals "+td.Name)
+			if h, a := holesAndAliases(consts); h > 0 {
+				switch {
+				case a == h:
+					tags = append(tags, "aliases=holes")
+				case a == h+1 || a+1 == h:
+					tags = append(tags, "aliases=holes+-1")
+				}
+			}
 			nt := len(pats) > 0 || len(consts) > 15 || neg
 			g.r.Add(hx.Case{Lines: lines, Domain: domain, Nontrivial: nt, Tags: tags})
 		}
@@ -626,4 +661,112 @@ func (g *gen) outOfDomain() {
 	for _, d := range defs {
 		g.emit([]*Def{d}, false)
 	}
+}
+
+// holesAndAliases: number of integers strictly inside the value range that are not defined, and
+// number of alias names (names minus distinct values); holes = -1 when the range is huge.
+func holesAndAliases(consts []Item) (holes, aliases int) {
+	if len(consts) == 0 {
+		return 0, 0
+	}
+	distinct := map[string]bool{}
+	mn, mx := consts[0].Val, consts[0].Val
+	for _, it := range consts {
+		distinct[it.Val.String()] = true
+		if it.Val.Cmp(mn) < 0 {
+			mn = it.Val
+		}
+		if it.Val.Cmp(mx) > 0 {
+			mx = it.Val
+		}
+	}
+	span := new(big.Int).Sub(mx, mn)
+	if !span.IsInt64() || span.Int64() > 100000 {
+		return -1, len(consts) - len(distinct)
+	}
+	return int(span.Int64()) + 1 - len(distinct), len(consts) - len(distinct)
+}
+
+// gapAliasDefs: value ranges with holes, and alias names whose number equals the number of holes
+// or is one off (any shortcut that compares `last-first` with a count of names instead of distinct
+// values goes wrong exactly there). Small and >15-constant enums, signed with negative values and
+// unsigned, 8-bit kinds included (IsValid is asked on every value of those, on every value of
+// the range otherwise). Four types per file.
+func (g *gen) gapAliasDefs() []*Def {
+	rng := g.rng
+	kindsQ := []string{"i8", "u8", "int", "u64"}
+	if g.thorough {
+		kindsQ = []string{"i8", "u8", "i16", "u16", "i32", "u32", "i64", "u64", "int", "uint"}
+	}
+	type shape struct {
+		kind  string
+		m     int // distinct values
+		h     int // holes inside the range
+		delta int // aliases - holes
+	}
+	var shapes []shape
+	for ki, kind := range kindsQ {
+		for si, m := range []int{4, 17} {
+			for _, delta := range []int{0, -1, 1} {
+				h := 1 + (ki+si+delta+3)%3
+				if h+delta < 0 {
+					continue
+				}
+				shapes = append(shapes, shape{kind, m, h, delta})
+			}
+		}
+	}
+	var defs []*Def
+	var d *Def
+	n := 0
+	for i, sh := range shapes {
+		if i%4 == 0 {
+			n = g.nextSerial()
+			d = &Def{Opts: "-"}
+			if (i/4)%3 == 2 {
+				d.Opts = "c"
+			}
+			defs = append(defs, d)
+		}
+		ti := i % 4
+		t := fmt.Sprintf("E%d%c", n, 'a'+ti)
+		pre := fmt.Sprintf("C%d%c", n, 'a'+ti)
+		d.Types = append(d.Types, TypeD{Name: t, Kind: sh.kind})
+		lo, _ := kindRange(sh.kind)
+		start := bi(0)
+		if lo.Sign() < 0 {
+			start = bi(int64(-2 - rng.Intn(3))) // negative values on signed kinds
+		}
+		// positions 0..m+h-1, holes at h distinct interior positions
+		total := sh.m + sh.h
+		hole := map[int]bool{}
+		for len(hole) < sh.h {
+			hole[1+rng.Intn(total-2)] = true
+		}
+		if ti > 0 {
+			d.Items = append(d.Items, Item{What: "block"})
+		}
+		var vals []*big.Int
+		first := true
+		for p := 0; p < total; p++ {
+			if hole[p] {
+				d.Items = append(d.Items, Item{What: "skip"})
+				continue
+			}
+			v := new(big.Int).Add(start, bi(int64(p)))
+			vals = append(vals, v)
+			form := "r"
+			if first {
+				form = "i"
+				first = false
+			}
+			d.Items = append(d.Items, Item{What: "const", T: t, Name: fmt.Sprintf("%sV%d", pre, p), Val: v, Form: form})
+		}
+		d.Items = append(d.Items, Item{What: "block"})
+		for a := 0; a < sh.h+sh.delta; a++ {
+			v := vals[rng.Intn(len(vals))]
+			d.Items = append(d.Items, Item{What: "const", T: t, Name: fmt.Sprintf("%sAlias%d", pre, a), Val: v, Dep: rng.Intn(2) == 0, Form: "x"})
+		}
+	}
+	return defs
 }
